@@ -233,6 +233,20 @@ func c17Scenarios(tier string) []*world.Scenario {
 	names := append([]string{}, all...)
 	names = append(names, "auth")
 	names = append(names, c17Invented...)
+	// near misses of every documented name: one letter appended / prepended, last letter dropped (unless that is a
+	// documented name itself), and a long tail - none of them is supported
+	docset := map[string]bool{"auth": true}
+	for _, n := range all {
+		docset[n] = true
+	}
+	for _, n := range all {
+		for _, m := range []string{n + "x", "x" + n, n[:len(n)-1], n + "withscores_v2"} {
+			if m != "" && !docset[m] {
+				docset[m] = true // once
+				names = append(names, m)
+			}
+		}
+	}
 	positions := []string{"alone", "middle"}
 	maxArgs := 5
 	if tier == "thorough" {
@@ -606,7 +620,7 @@ func c17Tables(res *Result) {
 
 func init() {
 	register(&Check{ID: "C17", Level: "model_checking",
-		Rule:      "every command name of docs/command.md (supported and unsupported rows, ~230) + AUTH + 20 invented names x {lower, UPPER, every single-letter case flip (quick: first two)} x argument counts 0..5 (thorough 0..7) x position {alone, middle of a 3-request pipeline whose other members are valid GETs; thorough also first, last}, as closed-loop batches; QUIT and AUTH (with a configured password) separately; request sizes L-1, L, L+1, L+40 for a limit L=64 alone / split in three chunks / next to a small request, requests of exactly L, L+1 and 3L bytes for every command family (single-key read and write, split MGET/DEL/MSET, single-slot MGET, EVAL, EVALSHA), four small requests in one chunk whose total exceeds L; single-key and merged-MGET replies of size L-1, L, L+1; docs <-> hand-written spec <-> code tables compared in both directions; oracle: served iff (name in the documented set, case-insensitively) and (arity rule) and (own size <= L), otherwise exactly the corresponding error and NO backend receives anything for it, neighbours unaffected; distinct = observable outcomes; plus every rejection class (unknown name, arity of the default/EVAL/MSET branch, oversize of the default/MGET branch) pipelined BEHIND a pending forwarded request and in front of further ones, followed by three requests that reuse the recycled request objects, under every interleaving within the bound",
+		Rule:      "every command name of docs/command.md (supported and unsupported rows, ~230) + AUTH + 20 invented names x {lower, UPPER, every single-letter case flip (quick: first two)} x argument counts 0..5 (thorough 0..7) x position {alone, middle of a 3-request pipeline whose other members are valid GETs; thorough also first, last}, as closed-loop batches; QUIT and AUTH (with a configured password) separately; request sizes L-1, L, L+1, L+40 for a limit L=64 alone / split in three chunks / next to a small request, requests of exactly L, L+1 and 3L bytes for every command family (single-key read and write, split MGET/DEL/MSET, single-slot MGET, EVAL, EVALSHA), four small requests in one chunk whose total exceeds L; single-key and merged-MGET replies of size L-1, L, L+1; docs <-> hand-written spec <-> code tables compared in both directions; oracle: served iff (name in the documented set, case-insensitively) and (arity rule) and (own size <= L), otherwise exactly the corresponding error and NO backend receives anything for it, neighbours unaffected; distinct = observable outcomes; plus every rejection class (unknown name, arity of the default/EVAL/MSET branch, oversize of the default/MGET branch) pipelined BEHIND a pending forwarded request and in front of further ones, followed by three requests that reuse the recycled request objects, under every interleaving within the bound; near misses of every documented name (one letter appended / prepended / dropped, a long suffix) are unsupported",
 		Scenarios: c17Scenarios, BudgetQuick: 100, BudgetThorough: 1500,
 		Seq: func(tier string, shard, n int, deadline time.Time, res *Result) {
 			if shard == 0 {
